@@ -107,17 +107,25 @@ def run(ctx):
                 ctx.evaluated((raw, "extra", extra, reader)); ctx.count("trailing:" + reader)
                 if res[0] != "ok" or pc.diff(intact, res[1]):
                     ctx.violation("appended bytes change what is read", {"hex": raw.hex() if len(raw) < 3000 else None, "extra": extra.hex()[:200], "reader": reader}, {}, True, size=len(raw))
-            # … and under a window (Props/C07.trailing_ignored_window); its own generator, so the draws of the rest of the check stay where they were
+            # … and under a window (Props/C07.trailing_ignored_window); its own generator, so the draws of the rest of the check stay where they were.
+            # The window may end beyond the last frame (the reader clamps it), and the appended bytes may amount to whole frames — a reader that
+            # sizes the body from the bytes that are there instead of the declared count is only seen then (seeded C07-q).
             if F:
+                bb = case["body"]
+                frame_bytes = bb["people"] * bb["points"] * (bb["dims"] + 1) * 4
                 ws = rng_tw.randrange(0, F)
-                win = {"start_frame": ws, "end_frame": rng_tw.choice([ws + 1, F, rng_tw.randint(ws + 1, F)])}
-                for reader in ("bytes", "stream"):
-                    ref = c03.impl_read(raw, reader, win, None)
-                    res = c03.impl_read(raw + extra, reader, win, None)
-                    ctx.evaluated((raw, "extra-window", extra, reader, win["start_frame"], win["end_frame"])); ctx.count("trailing-window:" + reader)
-                    if ref[0] != res[0] or (ref[0] == "ok" and pc.diff(ref[1], res[1])):
-                        ctx.violation("appended bytes change what a windowed read returns", {"hex": raw.hex() if len(raw) < 3000 else None, "extra": extra.hex()[:200], "reader": reader, "window": win},
-                                      {"intact": ref[0], "extended": res[0]}, True, size=len(raw))
+                wins = [{"start_frame": ws, "end_frame": rng_tw.choice([ws + 1, F, rng_tw.randint(ws + 1, F)])},
+                        {"start_frame": ws, "end_frame": F + rng_tw.choice([1, 3, 1000])}]
+                extras = [extra, bytes(rng_tw.getrandbits(8) for _ in range(frame_bytes * rng_tw.choice([1, 2, 5]) + rng_tw.choice([0, 0, 3])))]
+                for win in wins:
+                    for ex in extras:
+                        for reader in ("bytes", "stream"):
+                            ref = c03.impl_read(raw, reader, win, None)
+                            res = c03.impl_read(raw + ex, reader, win, None)
+                            ctx.evaluated((raw, "extra-window", ex, reader, win["start_frame"], win["end_frame"])); ctx.count("trailing-window:" + reader + (":beyond" if win["end_frame"] > F else ""))
+                            if ref[0] != res[0] or (ref[0] == "ok" and pc.diff(ref[1], res[1])):
+                                ctx.violation("appended bytes change what a windowed read returns", {"hex": raw.hex() if len(raw) < 3000 else None, "extra": ex.hex()[:200], "extra_bytes": len(ex),
+                                              "frame_bytes": frame_bytes, "reader": reader, "window": win}, {"intact": ref[0], "extended": res[0]}, True, size=len(raw))
         # the other body classes read through their own unpack routines: every cut (small files) / the field boundaries (large) into torch in-process, into tensorflow in a child
         other_cuts = cuts if kind == "small" else cuts[:: max(1, len(cuts) // 40)]
         from pose_format.torch.pose_body import TorchPoseBody
